@@ -7,14 +7,14 @@
 
    One function per anchored conversion, written as the code is written (defects included):
      Sample.from_lists                              -> from_lists
-     Emcee.samples_via_internal_from                -> emcee_convert   (flag aligned=false: code as pinned)
+     Emcee.samples_via_internal_from                -> emcee_convert   (aligned=true: code since 97df212; false: before)
      Zeus.samples_via_internal_from                 -> zeus_convert    (flag aligned=false: code as pinned)
      AbstractDynesty.samples_via_internal_from      -> dynesty_convert
      Nautilus.samples_via_internal_from             -> nautilus_convert
      UltraNest.samples_via_internal_from            -> ultranest_convert
      AbstractBFGS.samples_via_internal_from         -> bfgs_convert / bfgs_vis_convert
      Drawer.samples_from                            -> drawer_convert
-     AbstractPySwarms.samples_via_internal_from     -> pyswarms_convert
+     AbstractPySwarms.samples_via_internal_from     -> pyswarms_pbest_convert (code since fe260fe; pyswarms_convert = before)
      model.unique_prior_paths / model.all_paths     -> unique_prior_paths / all_paths
      Samples.max_log_likelihood_sample              -> max_ll_index / max_ll_sample
      Samples.max_log_likelihood(as_instance=False)  -> vector_for (all_paths pp) (kwargs of the best sample) *)
@@ -174,8 +174,8 @@ Section Conv.
     let lls := map2 sub post lps in
     Some (from_lists paths rows lls lps (ones (length lls))).
 
-  (* ---- PySwarms ---- parameters = first particle of every iteration; log-posteriors =
-     -0.5 * best-cost history; log-priors = priors of ALL particles, flattened (pinned code) *)
+  (* ---- PySwarms, LEGACY conversion (before fe260fe) ---- parameters = first particle of every iteration;
+     log-posteriors = -0.5 * best-cost history; log-priors = priors of ALL particles, flattened *)
   Fixpoint heads (pos : list (list (list V))) : option (list (list V)) :=
     match pos with
     | [] => Some []
@@ -192,8 +192,8 @@ Section Conv.
         Some (from_lists paths firsts lls lps (ones (length lls)))
     end.
 
-  (* ---- PySwarms, repaired conversion (proposed_fixes/C05-pyswarms-pbest-samples): the samples are the
-     particles' personal bests, each stored by pyswarms with its own cost ---- *)
+  (* ---- PySwarms, current conversion (fe260fe): the samples are the particles' personal bests, each stored
+     by pyswarms with its own cost ---- *)
   Definition pyswarms_pbest_convert (paths : list path) (pbest_pos : list (list V)) (pbest_cost : list V)
     : option (list sample) :=
     let lps := map prior pbest_pos in
